@@ -8,7 +8,7 @@ open Model
 type sx = A of string | L of sx list
 
 (* ---------- s-expression reader / printer ------------------------------ *)
-let tokenize (s : string) : string list =
+let sx_tokenize (s : string) : string list =
   let n = String.length s in
   let toks = ref [] in
   let i = ref 0 in
@@ -591,6 +591,96 @@ let run_compose (args : sx list) : sx =
               L [A "wf"; sx_bool (wf_json d)]])
   | _ -> failwith "compose: bad args"
 
+(* ---------- lexer / parser ------------------------------------------------------ *)
+let binop_str (o : binop) : string =
+  match o with
+  | BAnd -> "&&" | BOr -> "||" | BEq -> "==" | BNe -> "!=" | BLg -> "<>" | BLt -> "<" | BGt -> ">"
+  | BLe -> "<=" | BGe -> ">=" | BIn -> "in" | BContains -> "contains" | BRe -> "=~"
+
+let sx_optz (o : z option) : sx = match o with None -> A "none" | Some v -> sx_z v
+
+let rec fexprs_to_list (l : fexprs) : fexpr list = match l with ENil -> [] | ECons (e, r) -> e :: fexprs_to_list r
+let rec sels_to_list (l : sels) : selector list = match l with LNil -> [] | LCons (s, r) -> s :: sels_to_list r
+let rec segs_to_list (l : segs) : segment list = match l with PNil -> [] | PCons (g, r) -> g :: segs_to_list r
+
+let rec sx_fexpr (e : fexpr) : sx =
+  match e with
+  | FNil -> A "nil"
+  | FUndefined -> A "undef"
+  | FKey -> A "key"
+  | FBool b -> L [A "lit"; sx_bool b]
+  | FInt v -> L [A "lit"; L [A "i"; sx_z v]]
+  | FFloat n -> L [A "lit"; sx_json (JNum n)]
+  | FStr s -> L [A "lit"; sx_ustr s]
+  | FRegex (p, fl) ->
+      let f = (if fl.f_a then "a" else "") ^ (if fl.f_i then "i" else "") ^ (if fl.f_m then "m" else "") ^ (if fl.f_s then "s" else "") in
+      if f = "" then L [A "re"; sx_ustr p] else L [A "re"; sx_ustr p; A f]
+  | FList items -> L (A "list" :: List.map sx_fexpr (fexprs_to_list items))
+  | FNot r -> L [A "not"; sx_fexpr r]
+  | FInfix (l, o, r) -> L [A "op"; A (binop_str o); sx_fexpr l; sx_fexpr r]
+  | FSelf p -> L (A "self" :: List.map sx_segment (segs_to_list p))
+  | FRoot (fake, p) -> L (A "root" :: sx_bool fake :: List.map sx_segment (segs_to_list p))
+  | FCtx p -> L (A "ctx" :: List.map sx_segment (segs_to_list p))
+  | FFunc (name, args) -> L (A "fn" :: sx_ustr name :: List.map sx_fexpr (fexprs_to_list args))
+and sx_selector (s : selector) : sx =
+  match s with
+  | SName k -> L [A "name"; sx_ustr k]
+  | SIndex i -> L [A "idx"; sx_z i]
+  | SSlice (a, b, c) -> L [A "slice"; sx_optz a; sx_optz b; sx_optz c]
+  | SWild -> A "wild"
+  | SKeys -> A "keys"
+  | SFilter e -> L [A "filter"; sx_fexpr e]
+and sx_segment (g : segment) : sx =
+  match g with
+  | GSel s -> L [A "sel"; sx_selector s]
+  | GDescent -> A "desc"
+  | GList items -> L (A "list" :: List.map sx_selector (sels_to_list items))
+
+let sx_jpath (p : jpath) : sx = L (A "path" :: sx_bool p.p_fake :: List.map sx_segment (segs_to_list p.p_segs))
+let sx_query (q : query) : sx =
+  L (A "query" :: sx_jpath q.q_first ::
+     List.map (fun (o, p) -> L [A (match o with OpUnion -> "union" | OpIntersect -> "inter"); sx_jpath p]) q.q_rest)
+
+let re_ok_oracle (p : ustr) : bool option =
+  match regex_fullmatch p false false [] with
+  | Some (Some _) -> Some true
+  | Some None -> Some false
+  | None -> None
+
+let tkind_name (k : tkind) : string =
+  match k with
+  | TRoot -> "ROOT" | TFakeRoot -> "FAKE_ROOT" | TSelf -> "SELF" | TKey -> "KEY" | TUnion -> "UNION" | TIntersect -> "INTERSECT"
+  | TFilterCtx -> "FILTER_CONTEXT" | TKeys -> "KEYS" | TDQ -> "DOUBLE_QUOTE_STRING" | TSQ -> "SINGLE_QUOTE_STRING"
+  | TRePattern -> "RE_PATTERN" | TReFlags -> "RE_FLAGS" | TSliceStart -> "SLICE_START" | TSliceStop -> "SLICE_STOP"
+  | TSliceStep -> "SLICE_STEP" | TFunction -> "FUNCTION" | TProperty -> "PROP" | TBare -> "BARE_PROPERTY" | TFloat -> "FLOAT"
+  | TInt -> "INT" | TDDot -> "DDOT" | TAnd -> "AND" | TOr -> "OR" | TWild -> "WILD" | TFilter -> "FILTER" | TIn -> "IN"
+  | TTrue -> "TRUE" | TFalse -> "FALSE" | TNil -> "NIL" | TContains -> "CONTAINS" | TUndefined -> "UNDEFINED"
+  | TMissing -> "MISSING" | TLBracket -> "LBRACKET" | TRBracket -> "RBRACKET" | TComma -> "COMMA" | TEq -> "EQ" | TNe -> "NE"
+  | TLg -> "LG" | TLe -> "LE" | TGe -> "GE" | TRe -> "RE" | TLt -> "LT" | TGt -> "GT" | TNot -> "NOT" | TLParen -> "LPAREN"
+  | TRParen -> "RPAREN" | TEof -> "EOF" | TIllegal -> "ILLEGAL"
+
+let env_of_sx (x : sx) : env =
+  match x with
+  | A "default" -> default_env
+  | L [A "env"; root; fake; self; key; union; inter; fctx; keys; ue; wt] ->
+      { default_env with e_root = ustr_of_sx root; e_fake_root = ustr_of_sx fake; e_self = ustr_of_sx self;
+        e_key = ustr_of_sx key; e_union = ustr_of_sx union; e_intersection = ustr_of_sx inter;
+        e_filter_context = ustr_of_sx fctx; e_keys = ustr_of_sx keys;
+        e_unicode_escape = atom_bool ue; e_well_typed = atom_bool wt }
+  | _ -> failwith "env expected"
+
+(* (compile <env> <text>) *)
+let run_compile (args : sx list) : sx =
+  match args with
+  | [ev; text] ->
+      let e = env_of_sx ev in
+      let s = ustr_of_sx text in
+      let toks = tokenize e s in
+      L [A "ok";
+         L (List.map (fun t -> L [A (tkind_name t.tk); sx_ustr t.tv]) toks);
+         sx_result sx_query (compile e re_ok_oracle s)]
+  | _ -> failwith "compile: bad args"
+
 (* ---------- dispatch ---------------------------------------------------- *)
 let dispatch (x : sx) : sx =
   match x with
@@ -604,6 +694,7 @@ let dispatch (x : sx) : sx =
   | L (A "compare" :: args) -> run_compare args
   | L (A "project" :: args) -> run_project args
   | L (A "compose" :: args) -> run_compose args
+  | L (A "compile" :: args) -> run_compile args
   | _ -> failwith "unknown case kind"
 
 let () =
@@ -614,7 +705,7 @@ let () =
        if String.length line > 0 then begin
          Buffer.clear b;
          (try
-            let (x, _) = parse_sx (tokenize line) in
+            let (x, _) = parse_sx (sx_tokenize line) in
             print_sx b (dispatch x)
           with
           | Failure m -> Buffer.clear b; Buffer.add_string b ("(driver-error " ^ String.escaped m ^ ")")
